@@ -1,0 +1,137 @@
+//go:build verif
+
+package webp
+
+// Re-exports for the /verif harness (properties C15, C16, C17): the container
+// parser's result in plain types, the codec entry points the Decode glue calls,
+// and the bitstream/alpha parts Encode hands to its RIFF writer.  Add-only; not
+// compiled without the "verif" build tag.
+
+import (
+	"errors"
+	"image"
+
+	"github.com/deepteams/webp/internal/container"
+	"github.com/deepteams/webp/internal/lossless"
+	"github.com/deepteams/webp/internal/lossy"
+)
+
+// VerifRiffFrame mirrors container.FrameInfo.
+type VerifRiffFrame struct {
+	X, Y, W, H, Dur                        int
+	DisposeBG, BlendNone, HasAlpha, IsLossless bool
+	Payload                                []byte
+	AlphaNil                               bool
+	Alpha                                  []byte
+}
+
+// VerifRiffChunk mirrors container.Chunk.
+type VerifRiffChunk struct {
+	FourCC uint32
+	Data   []byte
+}
+
+// VerifRiffParsed is container.NewParser's outcome.  ErrClass: 0 ok, 1 ErrTruncated,
+// 2 ErrInvalidRIFF, 3 ErrInvalidWebP, 4 ErrTooLarge, 5 ErrInvalidChunk, 6 ErrInvalidVP8X,
+// 7 ErrInvalidFlags, 8 ErrUnsupported, 9 ErrInvalidImage, 10 any other error.
+type VerifRiffParsed struct {
+	ErrClass                                    int
+	Width, Height                               int
+	HasAlpha, HasAnim, HasICCP, HasEXIF, HasXMP bool
+	Format, LoopCount                           int
+	BGColor                                     uint32
+	CanvasW, CanvasH                            int
+	Frames                                      []VerifRiffFrame
+	Chunks                                      []VerifRiffChunk
+}
+
+func verifRiffErrClass(err error) int {
+	switch {
+	case err == nil:
+		return 0
+	case errors.Is(err, container.ErrTruncated):
+		return 1
+	case errors.Is(err, container.ErrInvalidRIFF):
+		return 2
+	case errors.Is(err, container.ErrInvalidWebP):
+		return 3
+	case errors.Is(err, container.ErrTooLarge):
+		return 4
+	case errors.Is(err, container.ErrInvalidChunk):
+		return 5
+	case errors.Is(err, container.ErrInvalidVP8X):
+		return 6
+	case errors.Is(err, container.ErrInvalidFlags):
+		return 7
+	case errors.Is(err, container.ErrUnsupported):
+		return 8
+	case errors.Is(err, container.ErrInvalidImage):
+		return 9
+	}
+	return 10
+}
+
+// VerifRiffParse runs container.NewParser on data.
+func VerifRiffParse(data []byte) VerifRiffParsed {
+	p, err := container.NewParser(data)
+	if err != nil {
+		return VerifRiffParsed{ErrClass: verifRiffErrClass(err)}
+	}
+	f := p.Features()
+	out := VerifRiffParsed{
+		Width: f.Width, Height: f.Height, HasAlpha: f.HasAlpha, HasAnim: f.HasAnim,
+		HasICCP: f.HasICCP, HasEXIF: f.HasEXIF, HasXMP: f.HasXMP, Format: int(f.Format),
+		LoopCount: f.LoopCount, BGColor: f.BGColor, CanvasW: f.CanvasWidth, CanvasH: f.CanvasHeight,
+	}
+	for _, fr := range p.Frames() {
+		out.Frames = append(out.Frames, VerifRiffFrame{
+			X: fr.XOffset, Y: fr.YOffset, W: fr.Width, H: fr.Height, Dur: fr.Duration,
+			DisposeBG: fr.DisposeMethod == container.DisposeBackground,
+			BlendNone: fr.BlendMethod == container.BlendNone,
+			HasAlpha:  fr.HasAlpha, IsLossless: fr.IsLossless,
+			Payload: fr.Payload, AlphaNil: fr.AlphaData == nil, Alpha: fr.AlphaData,
+		})
+	}
+	for _, c := range p.Chunks() {
+		out.Chunks = append(out.Chunks, VerifRiffChunk{FourCC: c.FourCC, Data: c.Payload})
+	}
+	return out
+}
+
+// VerifRiffLossyDims runs lossy.DecodeFrame (what decodeLossy calls first).
+func VerifRiffLossyDims(payload []byte) (w, h int, ok bool) {
+	dec, w, h, _, _, _, _, _, err := lossy.DecodeFrame(payload)
+	if err != nil {
+		return 0, 0, false
+	}
+	lossy.ReleaseDecoder(dec)
+	return w, h, true
+}
+
+// VerifRiffLosslessDims runs lossless.DecodeVP8L (what decodeLossless calls).
+func VerifRiffLosslessDims(payload []byte) (w, h int, ok bool) {
+	img, err := lossless.DecodeVP8L(payload)
+	if err != nil {
+		return 0, 0, false
+	}
+	return img.Bounds().Dx(), img.Bounds().Dy(), true
+}
+
+// VerifRiffAlphaOK runs lossy.DecodeAlpha; ok means a non-nil plane was returned.
+func VerifRiffAlphaOK(alpha []byte, w, h int) bool {
+	plane, err := lossy.DecodeAlpha(alpha, w, h)
+	return err == nil && plane != nil
+}
+
+// VerifRiffEncodeParts returns what Encode hands to writeRIFF for img/opts: the
+// image bitstream, the ALPH payload (nil if none) and the image FourCC.
+func VerifRiffEncodeParts(img image.Image, opts *EncoderOptions) (bitstream, alpha []byte, fourcc uint32, err error) {
+	if opts == nil {
+		opts = DefaultOptions()
+	}
+	if opts.Lossless {
+		bs, fcc, e := encodeLossless(img, opts)
+		return bs, nil, fcc, e
+	}
+	return encodeLossyWithAlpha(img, opts)
+}
